@@ -294,6 +294,20 @@ async fn try_forward_follower_connected(
         Some(state_tx) => {
             let (client_write_tx, client_write_rx) = mpsc::channel(config.channel_buffer_size);
             let (current_state, grave_goods, last_will) = worterbuch.export();
+            // The exported store does not contain $SYS, so the follower would not know which
+            // client registered which grave goods / last will (and could neither drop them when
+            // that client disconnects nor apply them when it gets promoted). Replay the current
+            // registrations as the first commands of the new follower's channel.
+            let mut registrations = vec![];
+            for topic in [SYSTEM_TOPIC_GRAVE_GOODS, SYSTEM_TOPIC_LAST_WILL] {
+                let pattern = topic!(
+                    SYSTEM_TOPIC_ROOT,
+                    SYSTEM_TOPIC_CLIENTS,
+                    KeySegment::Wildcard,
+                    topic
+                );
+                registrations.extend(worterbuch.pget(&pattern).unwrap_or_default());
+            }
             if state_tx
                 .send((
                     StateSync(current_state, grave_goods, last_will),
@@ -301,6 +315,15 @@ async fn try_forward_follower_connected(
                 ))
                 .is_ok()
             {
+                for kvp in registrations {
+                    if client_write_tx
+                        .send(ClientWriteCommand::Set(kvp.key, kvp.value, false))
+                        .await
+                        .is_err()
+                    {
+                        break;
+                    }
+                }
                 client_write_txs.push((*tx_id, client_write_tx));
                 *tx_id += 1;
             }
